@@ -374,6 +374,8 @@ def checkTbl (case impl : List String) : List Fail := Id.run do
     -- reference for handle values (the code advances its offset and its Length separately)
     let mut tOff := Tbl.new cfg ⟨oid, otab, orev⟩
     let mut prevLenField : Nat := 0
+    let mut prevImgLen : Nat := 0               -- image size at the last full observation
+    let mut prevImgAt : Nat := 0                -- … which followed op number prevImgAt
     let mut added : Array (Nat × Bytes) := #[]     -- (spec type code, raw) of the entries added
     let mut bodyLen : Nat := 0
     let mut nRdpas : Nat := 0
@@ -389,6 +391,7 @@ def checkTbl (case impl : List String) : List Fail := Id.run do
       | some (h, l, s, b) =>
         fails := fails ++ headFails tname 0 t.head h cfg.cw cntOff
         prevLenField := (readAt h 4 4).getD 0
+        prevImgLen := l
         if s ≠ 0 then fails := fails ++ [⟨"prop", "C01", "sum-nonzero", s!"{tname} after new: image sums to {s}"⟩]
         if prevLenField ≠ l then fails := fails ++ [⟨"prop", "C02", "length-field", s!"{tname} after new: Length {prevLenField}, image {l} bytes"⟩]
         if b ≠ fnvInit.toNat ∨ l ≠ h.length then fails := fails ++ [⟨"prop", "C03", "body-not-empty", s!"{tname} after new"⟩]
@@ -409,8 +412,14 @@ def checkTbl (case impl : List String) : List Fail := Id.run do
           let claimed : Nat := match o.full with
             | some (h, _, _, _) => ((readAt h 4 4).getD 0 + 2 ^ 32 - prevLenField) % 2 ^ 32
             | none => o.raw.length
-          if o.full.isSome ∧ claimed ≠ o.raw.length then
-            fails := fails ++ [⟨"prop", "C02", "entry-length", s!"{tname} op#{i} {op.kindName}: Length grew by {claimed}, entry serialises to {o.raw.length} bytes"⟩]
+          -- C02 speaks about the image: the Length field must grow by what the image grows by.  (An
+          -- entry that is left out of the image, or lands there in another form than it serialises to on
+          -- its own, is C03's business: the body-digest oracle below.)
+          match o.full with
+          | some (_, l, _, _) =>
+            if prevImgAt + 1 = i ∧ claimed ≠ l - prevImgLen then
+              fails := fails ++ [⟨"prop", "C02", "entry-length", s!"{tname} op#{i} {op.kindName}: Length grew by {claimed}, the image by {l - prevImgLen} bytes (the entry serialises to {o.raw.length} bytes on its own)"⟩]
+          | none => pure ()
           let trueOffset := Tbl.firstOffset cfg + bodyLen
           let offAdd := tOff.add [] o.raw.length 0
           match (match offAdd with | none => none | some _ => t.add o.raw claimed (sum8 o.raw)) with
@@ -434,6 +443,8 @@ def checkTbl (case impl : List String) : List Fail := Id.run do
               fails := fails ++ headFails tname i t.head h cfg.cw cntOff
               let lf := (readAt h 4 4).getD 0
               prevLenField := lf
+              prevImgLen := l
+              prevImgAt := i
               if s ≠ 0 then fails := fails ++ [⟨"prop", "C01", "sum-nonzero", s!"{tname} op#{i} {op.kindName}: image sums to {s}"⟩]
               if lf ≠ l then
                 fails := fails ++ [⟨"prop", "C02", "length-field", s!"{tname} op#{i} {op.kindName}: Length {lf}, image {l} bytes"⟩]
@@ -503,8 +514,11 @@ def checkTbl (case impl : List String) : List Fail := Id.run do
           if o.full.isSome ∧ lenOf op.kind a ≠ claimed then
             fails := fails ++ [⟨"corr", "C02", "claimed-length", s!"{tname} op#{i} {op.kindName}: model len() {lenOf op.kind a}, Length grew by {claimed}"⟩]
         | .error _ => pure ()
-        if o.full.isSome ∧ claimed ≠ o.raw.length then
-          fails := fails ++ [⟨"prop", "C02", "entry-length", s!"{tname} op#{i} {op.kindName}: Length grew by {claimed}, entry serialises to {o.raw.length} bytes"⟩]
+        match o.full with
+        | some (_, l, _, _) =>
+          if prevImgAt + 1 = i ∧ claimed ≠ l - prevImgLen then
+            fails := fails ++ [⟨"prop", "C02", "entry-length", s!"{tname} op#{i} {op.kindName}: Length grew by {claimed}, the image by {l - prevImgLen} bytes (the entry serialises to {o.raw.length} bytes on its own)"⟩]
+        | none => pure ()
         let trueOffset := Tbl.firstOffset cfg + bodyLen
         let offAdd := tOff.add [] o.raw.length 0
         match (match offAdd with | none => none | some _ => t.add o.raw claimed (sum8 o.raw)) with
@@ -548,6 +562,8 @@ def checkTbl (case impl : List String) : List Fail := Id.run do
             fails := fails ++ headLayoutFails tname i ⟨oid, otab, orev⟩ ctor h (added.size % 2 ^ 32)
             let lf := (readAt h 4 4).getD 0
             prevLenField := lf
+            prevImgLen := l
+            prevImgAt := i
             if s ≠ 0 then fails := fails ++ [⟨"prop", "C01", "sum-nonzero", s!"{tname} op#{i} {op.kindName}: image sums to {s}"⟩]
             if lf ≠ l then
               let nm := if nRdpas > 0 ∧ l = lf + nRdpas then "length-field-after-rdpas" else "length-field"
